@@ -615,6 +615,9 @@ def run_seed(seed, profile=None):
             distinct.add((st["op"], repr(sorted((st.get("loc") or {}).items())), st.get("glyph"), scn["round_geometry"],
                           corpusworlds.describe(scn["world"]["spec"]), scn["mat"]["mode"]))
     out["stats"]["distinct"] = sorted(distinct, key=repr)
+    out["scenario_digest"] = gen07._digest(scn)
+    out["log_digest"] = gen07._digest([[e.get("op"), e.get("outcome"), e.get("fired"), e.get("violations")]
+                                       for e in res["events"]])
     if seed % 61 == 0:
         out["sample"] = {"seed": seed, "world": corpusworlds.describe(scn["world"]["spec"]),
                          "round_geometry": scn["round_geometry"], "steps": scn["steps"],
